@@ -38,6 +38,7 @@ Theorem verify_accept_implies E A C P :
   verify_model O eval_trans eval_aux_trans E A C P = Accept ->
   e_modulus E = p_modulus P /\
   (exists o, In o (e_acceptable E) /\ zlist_eqb (p_options P) o = true) /\
+  (air_lagrange A <> None -> e_gkr_ok E = true) /\
   ood_equation A C P /\
   e_fri_commit_ok E = true /\ e_pow_ok E = true /\
   e_trace_auth E = true /\ e_cons_auth E = true /\
@@ -46,6 +47,11 @@ Proof.
   unfold verify_model, ood_equation, ood_equation_b.
   destruct (Z.eqb (e_modulus E) (p_modulus P)) eqn:E1; cbn [negb]; [|discriminate].
   destruct (existsb (zlist_eqb (p_options P)) (e_acceptable E)) eqn:E2; cbn [negb]; [|discriminate].
+  assert (Hg : (if match air_lagrange A with Some _ => negb (e_gkr_ok E) | None => false end then true else false) = false ->
+               air_lagrange A <> None -> e_gkr_ok E = true).
+  { destruct (air_lagrange A); [destruct (e_gkr_ok E); cbn; auto; discriminate|intros _ H; now elim H]. }
+  destruct (match air_lagrange A with Some _ => negb (e_gkr_ok E) | None => false end) eqn:EG; [discriminate|].
+  specialize (Hg eq_refl).
   destruct (feqb O _ _) eqn:E3; cbn [negb]; [|discriminate].
   destruct (e_fri_commit_ok E); cbn [negb]; [|discriminate].
   destruct (e_pow_ok E); cbn [negb]; [|discriminate].
@@ -62,18 +68,20 @@ Qed.
 Theorem verify_accept_iff E A C P :
   verify_model O eval_trans eval_aux_trans E A C P = Accept <->
   (Z.eqb (e_modulus E) (p_modulus P) && existsb (zlist_eqb (p_options P)) (e_acceptable E) &&
+   match air_lagrange A with Some _ => e_gkr_ok E | None => true end &&
    ood_equation_b O eval_trans eval_aux_trans A C P && e_fri_commit_ok E && e_pow_ok E && e_trace_auth E && e_cons_auth E &&
    e_fri E (deep_evaluations O A C P) = true).
 Proof.
   unfold verify_model.
   destruct (Z.eqb _ _); cbn [negb andb]; [|split; discriminate].
   destruct (existsb _ _); cbn [negb andb]; [|split; discriminate].
-  destruct (ood_equation_b _ _ _ _ _ _); cbn [negb andb]; [|split; discriminate].
-  destruct (e_fri_commit_ok E); cbn [negb andb]; [|split; discriminate].
-  destruct (e_pow_ok E); cbn [negb andb]; [|split; discriminate].
-  destruct (e_trace_auth E); cbn [negb andb]; [|split; discriminate].
-  destruct (e_cons_auth E); cbn [negb andb]; [|split; discriminate].
-  destruct (e_fri E _); cbn [negb andb]; split; auto; discriminate.
+  destruct (air_lagrange A); [destruct (e_gkr_ok E)|]; cbn [negb andb]; try (split; discriminate).
+  all: destruct (ood_equation_b _ _ _ _ _ _); cbn [negb andb]; [|split; discriminate].
+  all: destruct (e_fri_commit_ok E); cbn [negb andb]; [|split; discriminate].
+  all: destruct (e_pow_ok E); cbn [negb andb]; [|split; discriminate].
+  all: destruct (e_trace_auth E); cbn [negb andb]; [|split; discriminate].
+  all: destruct (e_cons_auth E); cbn [negb andb]; [|split; discriminate].
+  all: destruct (e_fri E _); cbn [negb andb]; split; auto; discriminate.
 Qed.
 
 (* the value attached to a query position is the DEEP quotient of the opened row against the OOD frame.
@@ -172,7 +180,8 @@ Qed.
 Lemma deep_evaluations_nth A C P q rt rc x :
   nth_error (p_q_trace P) q = Some rt -> nth_error (p_q_cons P) q = Some rc -> nth_error (c_xs C) q = Some x ->
   nth_error (deep_evaluations O A C P) q =
-  Some (deep_trace_at O C P (c_z C *f air_g A) rt (aux_row_at P q) x +f deep_cons_at O C P rc x).
+  Some (deep_trace_at O C P (c_z C *f air_g A) rt (cut_aux_row A (aux_row_at P q)) x +f
+        deep_lagrange_at O A C P (c_z C *f air_g A) (aux_row_at P q) x +f deep_cons_at O C P rc x).
 Proof.
   unfold deep_evaluations. intros H1 H2 H3.
   rewrite nth_error_map.
@@ -263,16 +272,17 @@ Theorem accept_gives_polynomial_relation E A C P (Ns Hs : list (list F)) :
                                          (periodic_at O A (c_z C)) (c_aux_rands C))
           end)
          (peval (trans_divisor_poly O (air_g A) (air_n A) (air_k A)) (c_z C))
-  +f eval_boundary_part O A C P.
+  +f eval_boundary_part O A C P +f eval_lagrange_part O A C P.
 Proof.
   intros Hacc Hn Hnd Hg Hz Hfr Hev.
-  destruct (verify_accept_implies E A C P Hacc) as [_ [_ [Hood _]]].
-  unfold ood_equation, evaluate_constraints, eval_transition_part in Hood.
+  destruct (verify_accept_implies E A C P Hacc) as [_ [_ [_ [Hood _]]]].
+  unfold ood_equation, evaluate_constraints, evaluate_constraints_gen, eval_transition_part in Hood.
+  fold (eval_lagrange_part O A C P) in Hood.
   rewrite Hev, ood_reduce_is_evaluation in Hood. rewrite <- Hood.
   rewrite Hfr, dot_peval_lincomb.
   rewrite (SoundnessEnforce.trans_divisor_eval_spec O L (air_g A) (air_n A) Hnd (air_k A) (c_z C) Hn Hg Hz).
   destruct (p_aux P) as [ax|]; [reflexivity|].
-  f_equal. f_equal. ring.
+  f_equal. f_equal. f_equal. ring.
 Qed.
 
 (* ------------------------------------------------------------------ the random linear combination (ALI)
